@@ -79,7 +79,8 @@ LEMMAS = [
     (r"<&\[u8\] as p::bytes::r#async::AsyncRead>::poll_read$", r"^call:(index_mut|split_at)$", r"min\(", "amt = min(self.len(), buf.len())", None),
     (r"<&\[u8\] as p::bytes::r#async::AsyncRead>::poll_read$", r"^call:copy_from_slice$", r"", "both sides have length amt", None),
     # --- capsule
-    (r"CloseWebTransportSession::with_capsule$", r"^call:expect$", r"TryInto", "payload[..4] has length 4", None),
+    (r"CloseWebTransportSession::with_capsule$", r"^call:expect$", r"^<T as TryInto<U>>::try_into\(&\*<impl Index<I> for \[T\]>::index\([^()]*(\([^()]*\))*[^()]*,RangeTo\(4\)\)\),",
+     "the operand is `payload[..4]`: a slice produced by indexing with the constant range ..4 has length exactly 4 (the indexing itself is a separate obligation, discharged by the length guard)", None),
     # --- qpack
     (r"Decoder::decode$", r"^BoundsCheck$", r"buffer_remaining.*,0$", "loop guard capacity() > 0 and capacity == len(buffer_remaining())", None),
     (r"Decoder::decode_integer$", r"^BoundsCheck$", r"get_bytes\(.*,1\)\)\),0$", "get_bytes(1) returns a slice of exactly 1 byte (BytesReader contract, both impls)", "get-bytes-exact"),
@@ -380,31 +381,19 @@ def varint_invariant(ctx, rid):
     return (n >= 3 and not bad), "VarInt is constructed at %d sites, each constant/guarded <= 2^62-1 or the unsafe constructor%s" % (n, (" EXCEPT " + "; ".join(bad)) if bad else "")
 
 
-def run(ctx):
-    A = ctx.A
-    sup = Support(ctx)
-    ctx.rule("C11-R1", "every panic / overflow / bounds obligation reachable from a decoder entry point is discharged")
-    entries = []
-    for rx in ENTRY:
-        fs = A.find(rx)
-        if not fs:
-            ctx.violation("C11-R1", "entry|%s" % rx, "cannot decide: decoder entry point not found: /%s/" % rx)
-        entries += fs
-    ctx.floor("C11-R1", "entry points", len(entries), 40)
-    clo = closure_of(A, entries)
-    ctx.count("entry_points", len(entries))
-    ctx.count("functions_in_closure", len(clo))
+def sweep(ctx, rid, A, clo, sup, only=None):
+    """discharge every obligation of the functions in `clo` (optionally restricted to the def paths in `only`)"""
     n_ob = n_gen = n_lem = 0
     used = set()
     for path, fn in sorted(clo.items()):
-        if "::tests::" in path or fn.body is None:
+        if "::tests::" in path or fn.body is None or (only is not None and path not in only):
             continue
         obs = obligations.collect(fn)
         for o in obs:
             n_ob += 1
             alen = None
             how = obligations.discharge(o, typeb=typeb)
-            if how is None and o.kind.startswith("call:index"):
+            if how is None and (o.kind.startswith("call:index") or o.kind.startswith("call:split_at")):
                 # array length from the resolved Index impl's const generic
                 alen = None
                 for p in []:
@@ -419,7 +408,7 @@ def run(ctx):
                     how = "const generic %s instantiated with %s, all < 64" % (o.ops[1][1], sorted(ns))
             if how is not None:
                 n_gen += 1
-                ctx.ok("C11-R1", o.key, how)
+                ctx.ok(rid, o.key, how)
                 continue
             # lemma table
             fkey = o.key.split("|")[0]
@@ -434,14 +423,32 @@ def run(ctx):
                 used.add(hit[0])
                 if okk:
                     n_lem += 1
-                    ctx.ok("C11-R1", o.key, "lemma: %s [%s]" % (hit[1], detail))
-                    ctx.sample({"rule": "C11-R1", "obligation": o.text()[:160], "fn": fkey, "at": o.loc, "discharged_by": "lemma: " + hit[1], "support": detail})
+                    ctx.ok(rid, o.key, "lemma: %s [%s]" % (hit[1], detail))
+                    ctx.sample({"rule": rid, "obligation": o.text()[:160], "fn": fkey, "at": o.loc, "discharged_by": "lemma: " + hit[1], "support": detail})
                     continue
-                ctx.violation("C11-R1", o.key + "|lemma-support-failed", "%s: `%s`: the lemma '%s' no longer holds: %s" % (fn.path, o.text(), hit[1], detail), o.loc)
+                ctx.violation(rid, o.key + "|lemma-support-failed", "%s: `%s`: the lemma '%s' no longer holds: %s" % (fn.path, o.text(), hit[1], detail), o.loc)
                 continue
-            ctx.violation("C11-R1", o.key,
+            ctx.violation(rid, o.key,
                           "%s: `%s` is reachable from a network-facing decoder and is not discharged (guards on the path: %s)"
                           % (fn.path, o.text(), " & ".join(obligations.atom_str(a) for a in o.atoms)[:300] or "none"), o.loc)
+    return n_ob, n_gen, n_lem
+
+
+def run(ctx):
+    A = ctx.A
+    sup = Support(ctx)
+    ctx.rule("C11-R1", "every panic / overflow / bounds obligation reachable from a decoder entry point is discharged")
+    entries = []
+    for rx in ENTRY:
+        fs = A.find(rx)
+        if not fs:
+            ctx.violation("C11-R1", "entry|%s" % rx, "cannot decide: decoder entry point not found: /%s/" % rx)
+        entries += fs
+    ctx.floor("C11-R1", "entry points", len(entries), 40)
+    clo = closure_of(A, entries)
+    ctx.count("entry_points", len(entries))
+    ctx.count("functions_in_closure", len(clo))
+    n_ob, n_gen, n_lem = sweep(ctx, "C11-R1", A, clo, sup)
     ctx.count("obligations", n_ob)
     ctx.count("discharged_by_constants_intervals_guards", n_gen)
     ctx.count("discharged_by_lemma", n_lem)
